@@ -496,7 +496,10 @@ def main(argv=None):
 def do_replay(mod, prop_id, tier, path):
     with open(path) as f:
         data = json.load(f)
-    part = [p for p in mod.parts(tier) if p.name == data["part"]][0]
+    named = [p for p in mod.parts(tier) if p.name == data["part"]] or [p for p in mod.parts("thorough") if p.name == data["part"]]
+    if not named:
+        raise HarnessError(f"replay file names part {data['part']!r}, which {prop_id} does not have")
+    part = named[0]
     try:
         call_oracle(part, data["case"])
     except Violation as v:
@@ -529,7 +532,7 @@ def do_run(mod, prop_id, tier, seed, t0, only_part=None):
     # 1. replay tier: committed regression / known-finding descriptors
     replayed = 0
     for rel, data in replay_dir_cases(prop_id):
-        cand = [p for p in mod.parts(tier) if p.name == data["part"]]
+        cand = [p for p in mod.parts(tier) if p.name == data["part"]] or [p for p in mod.parts("thorough") if p.name == data["part"]]
         if not cand:
             raise HarnessError(f"{rel}: unknown part {data['part']}")
         part = cand[0]
@@ -584,7 +587,9 @@ def do_run(mod, prop_id, tier, seed, t0, only_part=None):
         for f in r["failures"]:
             if any(f["signature"] == s for s, _, _ in violations):
                 continue
-            rel = write_replay(prop_id, seed, f["part"], f["case"], f["msg"])
+            # a case that stands for a whole campaign hands back the concrete failing input
+            rc = f["detail"].get("replay_case") if isinstance(f.get("detail"), dict) else None
+            rel = write_replay(prop_id, seed, f["part"], rc if rc is not None else f["case"], f["msg"])
             violations.append((f["signature"], f["msg"], rel))
 
     if harness_errors:
